@@ -927,7 +927,8 @@ fn random_case(rng: &mut Rng, limit: u64, is_default: bool, cheap: bool) -> Case
 fn random_workload(rt: &tokio::runtime::Runtime, args: &Args, rep: &mut Report, dl: &Deadline) -> Value {
     let mut rng = Rng::new(args.seed).derive(0xA1 + args.shard * 7919);
     let n_small: u64 = if args.thorough { 30_000_000 } else { 1_000_000 };
-    let n_default: u64 = if args.thorough { 600 } else { 60 };
+    // (inside the Miri interpreter a 2 MB body takes minutes: the default-limit cases are left to the native run)
+    let n_default: u64 = if cfg!(miri) { 0 } else if args.thorough { 600 } else { 60 };
     let default_limit = match BodySizeLimit::new() {
         BodySizeLimit::Enabled { max_size } => max_size.as_u64(),
         BodySizeLimit::Disabled => 0,
